@@ -485,7 +485,7 @@ def positional_index_sites(chk, prog):
                               "positional access with a computed index that is not bounded by the length of the series (no range(len(.)) loop, no "
                               "length guard): IndexError when the series is shorter than the index, e.g. a season cut short by the end of the window",
                               loc=fi.loc(x))
-    chk.floor("C16.g", n, 6, "positional accesses with a computed index")
+    chk.floor("C16.g", n, 3, "positional accesses with a computed index")
 
 
 def no_none_outputs(chk, prog):
